@@ -824,8 +824,12 @@ COMPONENTS = {
              "multiprocessing.cpu_count", "time.thread_time", "memory_use", "Progress (display only)"],
 }
 
+EXPECTED_PROBES = ["refill_happened", "exception_captured", "captured_exception_yielded_first", "captured_exception_yielded_last", "pickle_round_trip", "thread_pool",
+                   "result_could_not_be_pickled", "earlier_run_stopped_by_consumer", "empty_list", "single_task_shortcut", "uncaptured_config"]
+
 RULE = ("one case = (spec, schedule): spec generated from the run seed (entry point, pool kind, worker count, 0..12 payloads "
-        "each returning or raising, raises() declaration, pickable, extra args, pickle knob, slow tasks, events-per-seam knob); "
+        "each returning or raising (chained / argument-less / unpicklable exceptions, unpicklable or falsy outcomes, deep recursion, raises() that changes while the function runs), raises() declaration, pickable, "
+        "extra args, pickle knob, fresh-worker-state knob, slow tasks, events-per-seam knob, optionally an earlier run stopped by its consumer); "
         "schedule = every 'which event fires next / how many events at this seam / which done future is handed out' "
         "decision. Non-trivial: >=2 payloads, >=2 completions through the simulated pool and >=1 scheduling decision. "
         "Distinct: distinct SHA-256 digests of the event log (decisions, submit/start/complete/yield events with payload keys and results).")
